@@ -123,16 +123,34 @@ pub fn cases(tier: &str, seed: u64) -> Vec<Case> {
             }
         }
     }
-    // pointer graphs of every shape behind a question header: bounded-exhaustive over a small alphabet
-    let alpha: [u8; 8] = [0x00, 0x01, 0x3F, 0x40, 0xC0, 0x0C, 0x0D, 0x61];
+    // pointer graphs of every shape behind a question header: bounded-exhaustive over a small alphabet;
+    // pointers may also lead into the header, whose bytes are then labels: for each body the header
+    // bytes 0, 1 and 5 are also set so that a label starting there ends at, one before, or one past
+    // the end of the message
+    let alpha: [u8; 8] = [0x00, 0x01, 0x05, 0x3F, 0x40, 0xC0, 0x0C, 0x61];
     let max_len = if thorough { 6 } else { 4 };
     for len in 0..=max_len {
         let total = alpha.len().pow(len as u32);
         for mut code in 0..total {
             let mut b = vec![0, 0, 0, 0, 0, 1, 0, 0, 0, 0, 0, 0];
-            for _ in 0..len { b.push(alpha[code % alpha.len()]); code /= alpha.len(); }
+            let mut has_ptr = false;
+            for _ in 0..len { let x = alpha[code % alpha.len()]; has_ptr |= x == 0xC0; b.push(x); code /= alpha.len(); }
+            let name_end = b.len();
             b.extend_from_slice(&[0, 1, 0, 1]);
             v.push(parse_case(&b, "pointer-graph"));
+            if has_ptr {
+                for t in [0usize, 1, 5] {
+                    for end in [name_end, b.len()] {
+                        for d in [-1i64, 0, 1] {
+                            let l = end as i64 - t as i64 - 1 + d;
+                            if l < 1 || l > 63 { continue; }
+                            let mut m = b[..end].to_vec();
+                            m[t] = l as u8;
+                            v.push(parse_case(&m, "pointer-into-header"));
+                        }
+                    }
+                }
+            }
         }
     }
     // long pointer chains and label-heavy messages: the worst case for time and heap
